@@ -18,6 +18,7 @@ TCfg == /\ IsEvent("Cfg") /\ phase = "idle" /\ phase' = "run" /\ keeps' = {}
         /\ cn' = [i \in {} |-> 0] /\ st' = [k \in {} |-> 0] /\ sk' = [s \in Socks |-> FreshSk]
 TAdv == IsEvent("Adv") /\ Run /\ Advance(Ev.t)
 TListen == IsEvent("Listen") /\ Run /\ Ev.ec = "ok" /\ Listen(Ev.l, Ep(Ev.ep))
+TBindAcc == IsEvent("BindAcc") /\ Run /\ Ev.ec = "ok" /\ BindOnly(Ev.l, Ep(Ev.ep))
 TCloseAcc == IsEvent("CloseAcc") /\ Run /\ CloseAcceptor(Ev.l)
 TAccept == IsEvent("Accept") /\ Run /\ Accept(Ev.l, Ev.h, Ev.into, Ev.form)
 TConnect == IsEvent("Connect") /\ Run /\ Len(Ev.lep) = 2
@@ -92,7 +93,7 @@ Diag == [l |-> l, owed |-> ~NothingOwed, connects |-> ~ConnectsComplete,
                          wr |-> (sk[Sender(k)].wr # None /\ InFlight(k) = {}),
                          lost |-> Cardinality(Lost(k)), undeliv |-> st[k].wire - st[k].deliv]
                       ELSE [conn |-> k[1], dir |-> k[2], rd |-> FALSE, wr |-> FALSE, lost |-> 0, undeliv |-> 0]]]
-TNext == TCancel \/ TCancelAcc \/ TThrow \/ TEndThrown \/ TEndLoose \/ TCfg \/ TAdv \/ TListen \/ TCloseAcc \/ TAccept \/ TConnect \/ TWire \/ TArrive \/ TDrop \/ TWrite
+TNext == TBindAcc \/ TCancel \/ TCancelAcc \/ TThrow \/ TEndThrown \/ TEndLoose \/ TCfg \/ TAdv \/ TListen \/ TCloseAcc \/ TAccept \/ TConnect \/ TWire \/ TArrive \/ TDrop \/ TWrite
          \/ TWriteDone \/ TRead \/ TReadDone \/ TReady \/ TReadSome \/ TClose \/ TConnectDone \/ TAcceptDone
          \/ TPending \/ TEnd
 TSpec == TInit /\ [][TNext]_tvars
